@@ -218,7 +218,7 @@ def run(prog: Program, rep: Report, tier: str) -> None:
                 rep.check("R12.3", fd.qual, f"Vtransform {vt}: level depth formula", res == want, what_bad=f"z = {res}; ROMS transform {vt} is {want}", what_ok=str(want), loc=fd.loc())
 
     # R12.4 wiring in Grid.__init__ and raising on unknown options
-    gi = prog.role_func("grid", "__init__")
+    gi = prog.lview(prog.role_func("grid", "__init__"))
     wires = {}
     for node in walk_no_nested(gi.node):
         if isinstance(node, ast.Assign) and isinstance(node.value, ast.Call) and unparse(node.value.func) in ("s_stretch", "sdepth"):
